@@ -7,6 +7,7 @@ import (
 	"go/constant"
 	"go/token"
 	"go/types"
+	"os"
 	"sort"
 	"strings"
 
@@ -986,10 +987,10 @@ func ruleTicks(c *Ctx) {
 		allInstrs(nw, func(in ssa.Instruction) {
 			if st, ok := in.(*ssa.Store); ok {
 				if n, _, ok := fieldName(st.Addr); ok {
-					switch n {
-					case "clock":
+					switch {
+					case strings.HasSuffix(typeName(st.Val.Type()), "smf.MetricTicks"):
 						clockV = st.Val
-					case "quoaterNoteTicks":
+					case n == c.quarterTicksField():
 						qV = st.Val
 					}
 				}
@@ -997,7 +998,9 @@ func ruleTicks(c *Ctx) {
 		})
 		good := clockV != nil && stripConv(clockV) == ssa.Value(nw.Params[0])
 		why := "the writer's clock is not the ticks-per-quarter parameter"
-		if good {
+		if good && c.ticksFromClock && qV == nil {
+			// the conversion asks the clock itself: nothing to keep in step
+		} else if good {
 			call, ok := qV.(*ssa.Call)
 			good = ok && strings.HasSuffix(calleeName(&call.Call), "smf.MetricTicks.Ticks4th") && call.Call.Args[0] == clockV
 			why = "quarter-note ticks are not derived from the same clock (header division and tick arithmetic can disagree)"
@@ -1091,10 +1094,34 @@ func (c *Ctx) checkRounding(fn *ssa.Function, v ssa.Value) string {
 	if m != ssa.Value(fn.Params[1]) {
 		return "the multiplier parameter is not a factor"
 	}
-	if nme, _, ok := loadedFieldThroughConv(q); !ok || nme != "quoaterNoteTicks" {
+	if call, ok := stripConv(q).(*ssa.Call); ok && strings.HasSuffix(calleeName(&call.Call), "smf.MetricTicks.Ticks4th") && len(call.Call.Args) == 1 {
+		// asked of the writer's clock on the spot instead of being kept in a field
+		if _, _, isField := loadedFieldThroughConv(call.Call.Args[0]); isField && strings.HasSuffix(typeName(call.Call.Args[0].Type()), "smf.MetricTicks") {
+			c.ticksFromClock = true
+			return ""
+		}
+	}
+	if nme, _, ok := loadedFieldThroughConv(q); !ok || nme != c.quarterTicksField() {
 		return "the other factor is not the writer's quarter-note tick count"
 	}
 	return ""
+}
+
+// quarterTicksField: the MIDIWriter field NewWriter fills with clock.Ticks4th() (whatever it is called).
+func (c *Ctx) quarterTicksField() string {
+	name := "quoaterNoteTicks"
+	if nw := c.fn("midix", "NewWriter"); nw != nil {
+		allInstrs(nw, func(in ssa.Instruction) {
+			if st, ok := in.(*ssa.Store); ok {
+				if n, _, ok := fieldName(st.Addr); ok {
+					if call, isCall := st.Val.(*ssa.Call); isCall && strings.HasSuffix(calleeName(&call.Call), "smf.MetricTicks.Ticks4th") {
+						name = n
+					}
+				}
+			}
+		})
+	}
+	return name
 }
 
 // checkValueSum: in play.Write the argument of Rest / Note is a phi accumulating v.Float() over a range loop on instance.Values starting at 0.
@@ -1218,6 +1245,13 @@ func ruleSelect(c *Ctx) {
 	}
 	c.site(1)
 	name := fname(fn)
+	// decided by folding the constructor and Select on track counts x ops, whatever Select keeps and however it branches
+	if problem, n, ok := c.selectByFolding(); ok {
+		c.check(problem == "", name, c.pos(fn.Pos()), name, fmt.Sprintf("decided by folding NewTrackNoSelector(N).Select(op) on %d calls (N = 1 .. 65535, meta ops and fixed ops 0 .. 2N+2): MetaTrack -> 0; FixedTrack -> 0 if N==1 else i%%(N-1)+1", n), name+": "+problem)
+		c.checkSelectorCtor()
+		return
+	}
+	defer c.checkSelectorCtor()
 	// classify returns by the type assertion that dominates them
 	type ret struct {
 		r    *ssa.Return
@@ -1311,7 +1345,86 @@ func ruleSelect(c *Ctx) {
 		problems = append(problems, "the *FixedTrack case lacks the single-track or the modulo branch")
 	}
 	c.check(len(problems) == 0, name, c.pos(fn.Pos()), name, "MetaTrack -> 0; FixedTrack -> 0 if N==1 else i%(N-1)+1", name+": "+strings.Join(uniq(problems), "; "))
+}
 
+// selectByFolding folds midix.NewTrackNoSelector(N) and, on what it returns, Select(op) for a meta op and for fixed ops
+// 0 .. 2N+2 (and two large numbers) with N from 1 to 65535: a meta op goes to track 0; a fixed op i to track 0 when there
+// is one track and to i % (N-1) + 1 otherwise. ok=false when something does not fold (the structural reading decides).
+func (c *Ctx) selectByFolding() (string, int, bool) {
+	ctor, sel := c.fn("midix", "NewTrackNoSelector"), c.fn("midix", "TrackNoSelectorImpl.Select")
+	mp := c.pkg("midix")
+	if ctor == nil || sel == nil || mp == nil || len(sel.Params) != 2 {
+		return "", 0, false
+	}
+	mo, fo := mp.Types.Scope().Lookup("MetaTrack"), mp.Types.Scope().Lookup("FixedTrack")
+	if mo == nil || fo == nil {
+		return "", 0, false
+	}
+	debug := os.Getenv("CRDCHECK_DEBUG") != ""
+	intT := types.Typ[types.Int]
+	n := 0
+	for _, N := range []int64{1, 2, 3, 4, 5, 8, 16, 17, 128, 255, 256, 65535} {
+		fd := c.newFolder()
+		fd.maxSteps = 20000
+		r, err := fd.foldCall(ctor, []fval{{k: constant.MakeInt64(N), t: intT}})
+		if err != nil || len(r.tuple) != 2 || !r.tuple[1].isNil {
+			if debug {
+				fmt.Fprintf(os.Stderr, "selectByFolding: NewTrackNoSelector(%d) does not fold: %v %s\n", N, err, r.String())
+			}
+			return "", 0, false
+		}
+		heap := fd.heap
+		recv := r.tuple[0]
+		if _, isPtr := sel.Params[0].Type().Underlying().(*types.Pointer); !isPtr {
+			recv = fd.deref(recv)
+		}
+		if fd.cellType == nil {
+			fd.cellType = map[*ssa.Alloc]types.Type{}
+		}
+		ks := []int64{-1}
+		for k := int64(0); k <= 2*N+2 && k <= 40; k++ {
+			ks = append(ks, k)
+		}
+		ks = append(ks, 255, 65536)
+		for _, k := range ks {
+			cell := new(ssa.Alloc)
+			what, want := "a meta op", int64(0)
+			if k < 0 {
+				heap[cell] = fval{fields: map[string]fval{}}
+				fd.cellType[cell] = types.NewPointer(mo.Type())
+			} else {
+				heap[cell] = fval{fields: map[string]fval{"TrackNo": {k: constant.MakeInt64(k), t: intT}}}
+				fd.cellType[cell] = types.NewPointer(fo.Type())
+				what = fmt.Sprintf("the fixed op %d", k)
+				if N > 1 {
+					want = k%(N-1) + 1
+				}
+			}
+			fd.steps = 0
+			fd.failedCalls, fd.incomplete = nil, nil
+			sr, err := fd.foldCallEnv(sel, []fval{recv, {addr: &faddr{base: cell}}}, nil, heap)
+			if err != nil || sr.k == nil || sr.k.Kind() != constant.Int || len(fd.failedCalls) > 0 {
+				if debug {
+					fmt.Fprintf(os.Stderr, "selectByFolding: Select(%s) with %d tracks does not fold: %v %s %v\n", what, N, err, sr.String(), fd.failedCalls)
+				}
+				return "", 0, false
+			}
+			n++
+			if got, _ := constant.Int64Val(sr.k); got != want {
+				msg := "the track of the i-th fixed op is not TrackNo % (trackNum-1) + 1: with N >= 2 it can reach track 0 (the meta track) or exceed N-1 (index out of range)"
+				if k < 0 {
+					msg = "meta ops are not sent to track 0 (tempo / time / key signature events leave the first track)"
+				} else if N == 1 {
+					msg = "a fixed op gets a track other than 0 when there is one track"
+				}
+				return fmt.Sprintf("with %d track(s) %s goes to track %d, want %d: %s", N, what, got, want, msg), n, true
+			}
+		}
+	}
+	return "", n, true
+}
+
+func (c *Ctx) checkSelectorCtor() {
 	// constructor refuses N < 1
 	if ctor := c.fn("midix", "NewTrackNoSelector"); ctor != nil {
 		c.site(1)
